@@ -634,8 +634,15 @@ def emit_all(data):
                "theorem poscC_all_c06 : poscC.all (compoundOkOrKnown poscC c06KnownBad) = true :=\n"
                "  compoundOkOrKnown_of_index poscTree_complete poscTree_sound poscBases_sound poscBases_complete\n"
                "    poscC_all_c06_indexed\nend Barril.Gen\n" % " ".join(k + "_c06" for k in c06_thms))
+    # G5: definitions translated from the source text of selected functions (harness/pycode.py); they are not part
+    # of All.lean (the tables must not depend on model files), the bridge modules import them one by one
+    import pycode
+    code_files, code_report = pycode.generate()
+    for n, t in code_files.items():
+        em.add(n, t)
+    data["code"] = code_report
     em.add("All.lean", "".join("import Barril.Gen.%s\n" % n[:-5].replace("/", ".") for n in sorted(em.files)
-                                if n != "All.lean"))
+                                if n != "All.lean" and not n.startswith("Code")))
     return em
 
 
